@@ -17,6 +17,7 @@ def parseIn : String → Option In
   | "reset" => some (.userReset false)
   | "reset!" => some (.userReset true)
   | "resetL" => some .resetInLocate
+  | "resetP" => some .locateInReset
   | _ => none
 
 partial def loop (h : IO.FS.Stream) (s : R) : IO Unit := do
